@@ -338,10 +338,11 @@ class BaseSection(base.Sectionable):
             self._parent.remove(self)
             self._parent = None
         elif self._validate_parent(new_parent):
-            if self._parent is not None:
-                self._parent.remove(self)
-            self._parent = new_parent
-            self._parent.append(self)
+            if self._parent is new_parent:
+                # Re-assigning the current parent moves the object to the end of the child list.
+                new_parent.remove(self)
+            # append refuses name clashes before it detaches the object from its former parent.
+            new_parent.append(self)
         else:
             raise ValueError(
                 "odml.Section.parent: passed value is not of consistent type!"
